@@ -1,8 +1,11 @@
 #!/usr/bin/env python3
 """C08 — write authorisation: proofs in coq/Props/C08.v; a decision table over user bits, board attributes /
-level / limits, ban state, cool-down state and article ownership is materialised in a scratch BBS environment
-and pushed through ptt.NewPost / Recommend / EditPost / CrossPost / CheckPostPerm2 / CheckPostRestriction;
-accept/refuse and the before/after snapshots must equal the extracted model and satisfy the rule set."""
+level / limits, ban state, cool-down state, article ownership (owner ids related to the caller's by prefix, case,
+trailing characters) and the cross-post SOURCE board (BRD_CPLOG, ban, limits, level, visibility) is materialised in a
+scratch BBS environment and pushed through ptt.NewPost / Recommend / EditPost / CrossPost / CheckPostPerm2 /
+CheckPostRestriction; accept/refuse and the before/after snapshots of EVERY board must equal the extracted model
+and satisfy the rule set. getRestrictionReason is swept over all 256 values of either limit, isFileOwner over id
+pairs related by prefix / case / trailing bytes."""
 import os, sys
 from concurrent.futures import ThreadPoolExecutor
 sys.path.insert(0, os.path.join(os.path.dirname(os.path.abspath(__file__)), "..", "lib"))
@@ -12,13 +15,18 @@ import C07 as R                                         # the read rule's refere
 
 P = dict(BASIC=0o1, CHAT=0o2, PAGE=0o4, POST=0o10, LOGINOK=0o20, BM=0o2000, SYSOP=0o40000, VIOLATELAW=0o400000, ANGEL=0o1000000,
          POLICE=0o20000000000, POLICE_MAN=0o2000000000)
-B = dict(HIDE=0x10, POSTMASK=0x20, VOTEBOARD=0x200, NORECOMMEND=0x1000, RESTRICTEDPOST=0x40000, GUESTPOST=0x80000, COOLDOWN=0x100000,
+B = dict(HIDE=0x10, POSTMASK=0x20, VOTEBOARD=0x200, NORECOMMEND=0x1000, RESTRICTEDPOST=0x40000, GUESTPOST=0x80000, COOLDOWN=0x100000, CPLOG=0x200000,
          OVER18=0x01000000)
+CALLER, OTHER = b"CodingMan", b"Kahou"                  # the fixture users of the scratch BBS (go/impl/cmd/implrun/c08.go)
+ARTICLE = b"M.1607202239.A.30D"
 OPS = {1: "NewPost", 2: "Recommend", 3: "EditPost", 4: "CrossPost"}
 
 # one row = a dict of concrete plantings; BASE passes every rule
 BASE = dict(ulevel=P["BASIC"] | P["CHAT"] | P["PAGE"] | P["POST"] | P["LOGINOK"], o18=1, logindays=1000, badpost=0, regbefore=1,
-            inbm=0, fr=0, ban=0, cd_rel=-600, pt=0, bsel=0, battr=0, blevel=0, limlogins=0, limbad=0, nuser=0, exists=1, owner=1)
+            inbm=0, fr=0, ban=0, cd_rel=-600, pt=0, bsel=0, battr=0, blevel=0, limlogins=0, limbad=0, nuser=0, exists=1, owner=1,
+            # extended plantings: the owner field of the addressed article (None: by `owner`), the cross-post source board
+            ownerid=None, sattr=0, slevel=0, slimlogins=0, slimbad=0, sban=0, sinbm=0, sfr=0)
+SRC_KEYS = ("sattr", "slevel", "slimlogins", "slimbad", "sban", "sinbm", "sfr")
 # single deviations from any row: (name, function)
 DEV = [
     ("sysop", lambda r: r.update(ulevel=r["ulevel"] | P["SYSOP"])),
@@ -59,21 +67,78 @@ DEV = [
     ("missing-article", lambda r: r.update(exists=0)),
     ("not-owner", lambda r: r.update(owner=0)),
     ("owner-reregistered", lambda r: r.update(regbefore=0)),
+    # --- limits whose tenfold does not fit a byte (26..255 units = 260..2550 login-days), and bad-post limits at both ends
+    ("logins-300-has-50", lambda r: r.update(logindays=50, limlogins=30)),
+    ("logins-300-has-299", lambda r: r.update(logindays=299, limlogins=30)),
+    ("logins-300-has-300", lambda r: r.update(logindays=300, limlogins=30)),
+    ("logins-260-has-9", lambda r: r.update(logindays=9, limlogins=26)),
+    ("logins-1280-has-1000", lambda r: r.update(logindays=1000, limlogins=128)),
+    ("logins-2550-has-2549", lambda r: r.update(logindays=2549, limlogins=255)),
+    ("logins-2550-has-2550", lambda r: r.update(logindays=2550, limlogins=255)),
+    ("badposts-limit255-has-1", lambda r: r.update(badpost=1, limbad=255)),
+    ("badposts-limit255-has-0", lambda r: r.update(badpost=0, limbad=255)),
+    ("badposts-limit1-has-255", lambda r: r.update(badpost=255, limbad=1)),
+    ("badposts-limit1-has-254", lambda r: r.update(badpost=254, limbad=1)),
+    # --- the owner field of the addressed article, related to the caller's id
+    ("owner-longer-digit", lambda r: r.update(ownerid=CALLER + b"1")),
+    ("owner-longer-dot", lambda r: r.update(ownerid=CALLER + b".")),
+    ("owner-longer-full", lambda r: r.update(ownerid=CALLER + b"12345")),
+    ("owner-shorter", lambda r: r.update(ownerid=CALLER[:-1])),
+    ("owner-first-char", lambda r: r.update(ownerid=CALLER[:1])),
+    ("owner-lower-case", lambda r: r.update(ownerid=CALLER.lower())),
+    ("owner-upper-case", lambda r: r.update(ownerid=CALLER.upper())),
+    ("owner-trailing-blank", lambda r: r.update(ownerid=CALLER + b" ")),
+    ("owner-nul-then-junk", lambda r: r.update(ownerid=CALLER + b"\0X")),
+    ("owner-empty", lambda r: r.update(ownerid=b"")),
+    # --- the SOURCE board of a cross-post
+    ("src-cplog", lambda r: r.update(sattr=r["sattr"] | B["CPLOG"])),
+    ("src-banned", lambda r: r.update(sban=1)),
+    ("src-ban-expired", lambda r: r.update(sban=2)),
+    ("src-few-logins", lambda r: r.update(slimlogins=101)),
+    ("src-many-logins-wrap", lambda r: r.update(slimlogins=128)),
+    ("src-badposts", lambda r: r.update(slimbad=255, badpost=max(r["badpost"], 1))),
+    ("src-level-angel", lambda r: r.update(slevel=r["slevel"] | P["ANGEL"], sattr=r["sattr"] | B["POSTMASK"])),
+    ("src-level-angel-read", lambda r: r.update(slevel=r["slevel"] | P["ANGEL"])),
+    ("src-restrictedpost", lambda r: r.update(sattr=r["sattr"] | B["RESTRICTEDPOST"])),
+    ("src-hidden", lambda r: r.update(sattr=r["sattr"] | B["HIDE"] | B["POSTMASK"])),
+    ("src-voteboard", lambda r: r.update(sattr=r["sattr"] | B["VOTEBOARD"])),
+    ("src-friend", lambda r: r.update(sfr=1)),
+    ("src-inbm", lambda r: r.update(sinbm=1)),
 ]
 
 
+def owner_bytes(r):
+    if r.get("ownerid") is not None:
+        return bytes(r["ownerid"])
+    return CALLER if r["owner"] else OTHER
+
+
+def extended(r):
+    return r.get("ownerid") is not None or any(r.get(k, 0) for k in SRC_KEYS)
+
+
 def line(op, r):
-    return "%d|%d %d %d %d %d|%d %d %d %d %d|%d %d %d %d %d %d|%d %d" % (
+    base = "%d|%d %d %d %d %d|%d %d %d %d %d|%d %d %d %d %d %d|" % (
         op, r["ulevel"], r["o18"], r["logindays"], r["badpost"], r["regbefore"], r["inbm"], r["fr"], r["ban"], r["cd_rel"], r["pt"],
-        r["bsel"], r["battr"], r["blevel"], r["limlogins"], r["limbad"], r["nuser"], r["exists"], r["owner"])
+        r["bsel"], r["battr"], r["blevel"], r["limlogins"], r["limbad"], r["nuser"])
+    if not extended(r):
+        return base + "%d %d" % (r["exists"], r["owner"])
+    return base + "%d 2|%s|%s|%s" % (r["exists"], " ".join(map(str, owner_bytes(r))), " ".join(map(str, CALLER)),
+                                    " ".join(str(r[k]) for k in SRC_KEYS))
 
 
-def facts(r):
-    """the facts of the property text, computed from the plantings independently of the Coq model"""
-    ul, ba, bl = r["ulevel"], r["battr"], r["blevel"]
+def cstr(b, n):
+    """the C string in an n-byte field holding b"""
+    b = bytes(b)[:n].ljust(n, b"\0")
+    return b.split(b"\0")[0]
+
+
+def board_facts(r, ba, bl, inbm, fr, ban, bsel, limlogins, limbad):
+    """the caller against one board: readable, posting rules, limits — from the property text, independent of the Coq model"""
+    ul = r["ulevel"]
     f = {}
     row = dict(sysop=bool(ul & P["SYSOP"]), police=bool(ul & P["POLICE"]), policeman=bool(ul & P["POLICE_MAN"]), basic=bool(ul & P["BASIC"]),
-               verified=bool(ul & P["LOGINOK"]), inbm=bool(r["inbm"]), friend=bool(r["fr"]), uover18=bool(r["o18"]), haslevel=bool(ul & bl),
+               verified=bool(ul & P["LOGINOK"]), inbm=bool(inbm), friend=bool(fr), uover18=bool(r["o18"]), haslevel=bool(ul & bl),
                permboard=False, namedbm=False, hidden=bool(ba & B["HIDE"]), postmask=bool(ba & B["POSTMASK"]), bover18=bool(ba & B["OVER18"]),
                level0=bl == 0, levelbm=bool(bl & P["BM"]))
     f["readable"] = R.spec_may_read(row)
@@ -81,35 +146,148 @@ def facts(r):
     f["moderator"] = row["basic"] and row["verified"] and row["inbm"]
     f["verified"] = row["verified"]
     f["basic"] = row["basic"]
-    f["readonly"] = r["bsel"] == 1
+    f["readonly"] = bsel == 1
     extra = bl & ~P["POST"]
     if f["readonly"]:
         rules = False
     elif f["sysop"]:
         rules = True
-    elif r["ban"] == 1:
+    elif ban == 1:
         rules = False
-    elif r["bsel"] == 2 or ba & B["GUESTPOST"]:
+    elif bsel == 2 or ba & B["GUESTPOST"]:
         rules = True
     elif not ul & P["POST"]:
         rules = False
     elif row["hidden"]:
         rules = True
-    elif ba & B["RESTRICTEDPOST"] and not r["fr"]:
+    elif ba & B["RESTRICTEDPOST"] and not fr:
         rules = False
     elif ul & P["VIOLATELAW"]:
         rules = bool(bl & P["VIOLATELAW"])
     else:
         rules = extra == 0 or bool(ul & extra)
     f["posting_rules"] = rules
-    over = r["logindays"] // 10 < r["limlogins"] or r["badpost"] > 255 - r["limbad"]
+    # in days, on unbounded integers: the board keeps the limit in units of ten login-days
+    over = r["logindays"] < 10 * limlogins or r["badpost"] + limbad > 255
     f["limits_ok"] = f["sysop"] or f["moderator"] or not over
+    return f
+
+
+def facts(r):
+    """the facts of the property text, computed from the plantings independently of the Coq model"""
+    ba = r["battr"]
+    f = board_facts(r, ba, r["blevel"], r["inbm"], r["fr"], r["ban"], r["bsel"], r["limlogins"], r["limbad"])
     pt, nu = r["pt"], r["nuser"]
     flood = (nu > 4000 and pt >= 1) or (nu > 2000 and pt >= 2) or (nu > 1000 and pt >= 3) or pt >= 10
     f["cooldown"] = r["cd_rel"] >= 0 and not f["sysop"] and (bool(ba & B["COOLDOWN"]) or pt == 15 or flood)
-    f["may_write"] = f["readable"] and rules and f["limits_ok"] and f["verified"] and not f["cooldown"]
-    f["owner"] = bool(r["owner"] and r["regbefore"])
+    f["may_write"] = f["readable"] and f["posting_rules"] and f["limits_ok"] and f["verified"] and not f["cooldown"]
+    # the author: the owner field holds exactly the caller's id (whole C strings), and the account is not younger than the article
+    f["owner"] = bool(cstr(owner_bytes(r), 14) == cstr(CALLER, 13) and r["regbefore"])
+    # the source board of a cross-post
+    fs = board_facts(r, r.get("sattr", 0), r.get("slevel", 0), r.get("sinbm", 0), r.get("sfr", 0), r.get("sban", 0), 0, r.get("slimlogins", 0), r.get("slimbad", 0))
+    f["src_readable"], f["src_rules"], f["src_limits_ok"] = fs["readable"], fs["posting_rules"], fs["limits_ok"]
+    f["src_cplog"] = bool(r.get("sattr", 0) & B["CPLOG"])
+    f["src_voteboard"] = bool(r.get("sattr", 0) & B["VOTEBOARD"])
     return f
+
+
+# ---------------------------------------------------------------- getRestrictionReason / isFileOwner on their own
+REASON = {0: "none", 3: "login-days", 4: "bad-posts"}
+
+
+def reason_ref(days, bad, liml, limb):
+    return 3 if days < 10 * liml else 4 if bad + limb > 255 else 0
+
+
+def reason_lines(rng, thorough):
+    ls = []
+    for liml in range(256):                                              # every login-days limit x days around every threshold a wrapped product could fake
+        w = (10 * liml) % 256
+        for days in sorted({0, 9, 10, 255, 256, 10 * liml - 1, 10 * liml, 10 * liml + 1, 10 * liml + 9, w - 1, w, w + 1, 2549, 2550, 2559, 2560,
+                            4294967290, 4294967295}):
+            if 0 <= days <= 4294967295:
+                ls.append((days, 0, liml, 0))
+    for limb in range(256):                                              # every bad-post limit x every bad-post count
+        for bad in range(256):
+            ls.append((5000, bad, 0, limb))
+    for _ in range(50000 if thorough else 5000):
+        liml, limb = rng.randrange(256), rng.randrange(256)
+        days = rng.choice([rng.randrange(0, 2600), 10 * liml + rng.randrange(-3, 4), rng.randrange(2 ** 32)])
+        bad = rng.choice([rng.randrange(256), 255 - limb + rng.randrange(-2, 3)])
+        ls.append((min(max(days, 0), 2 ** 32 - 1), min(max(bad, 0), 255), liml, limb))
+    return ls
+
+
+def atoi10(b):
+    """strconv.Atoi on ten bytes; an error gives 0"""
+    s0 = b
+    if b[:1] in (b"+", b"-"):
+        b = b[1:]
+    if not b or any(not 48 <= ch <= 57 for ch in b):
+        return 0
+    n = int(b.decode())
+    return -n if s0[:1] == b"-" else n
+
+
+def owner_ref(owner, uid, fname, fl):
+    if cstr(owner, 14) != cstr(uid, 13):
+        return False
+    fn = bytes(fname)[:28].ljust(28, b"\0")
+    if len(fn.split(b"\0")[0]) <= 3:
+        return False
+    ts = atoi10(fn[2:12]) & 0xFFFFFFFF
+    ts = ts - (1 << 32) if ts >= 1 << 31 else ts
+    return ts >= fl
+
+
+def owner_lines(rng, thorough):
+    ids = [b"A1", b"A10", b"A1b", b"A1.", b"a1", b"A2", b"A", b"SYSOP", b"SYSOP3", b"sysop", b"Sysop", CALLER, CALLER + b"1", CALLER[:-1],
+           CALLER.lower(), CALLER.upper(), CALLER + b".", CALLER + b" ", b" " + CALLER, b"abcdefghijkl", b"abcdefghijk", b"abcdefghijkl.",
+           b"abcdefghijklm", b"abcdefghijklmn", b"", b"A1\0X", b"A1\0", b"\0A1", b"guest", b"guest.", b"-A1", b"A1-"]
+    ls = []
+    for o in ids:
+        for u in ids:
+            if len(o) <= 14 and len(u) <= 13:
+                ls.append((o, u, ARTICLE, 1000))
+    fnames = [ARTICLE, b"M.1", b"M.1607202239", b"M.0000001000.A.ABC", b"M.+000001000.A.ABC", b"M.-000001000.A.ABC", b"M.16072O2239.A.30D", b"",
+              b"M.4000000000.A.ABC", b"M.9999999999.A.ABC"]
+    for (o, u) in [(b"A1", b"A1"), (b"A10", b"A1"), (b"A1", b"A10"), (CALLER, CALLER), (CALLER + b"1", CALLER), (b"A1\0X", b"A1")]:
+        for fn in fnames:
+            for fl in (1000, 999, 1001, -1000, 0, 1607202238, 1607202239, 1607202240, 2000000000, -294967296, -294967297, 2147483647, -2147483648):
+                ls.append((o, u, fn, fl))
+    alnum = b"abcdefghijklmnopqrstuvwxyzABCDEFGHIJKLMNOPQRSTUVWXYZ0123456789"
+    for _ in range(200000 if thorough else 20000):
+        a = bytes(rng.choice(alnum) for _ in range(rng.randrange(1, 13)))
+        m = rng.randrange(12)
+        if m == 0: b = a
+        elif m == 1: b = a[:rng.randrange(0, len(a))]                              # a proper prefix
+        elif m == 2: b = a + bytes([rng.choice(alnum)])                            # one character longer
+        elif m == 3: b = (a + bytes(rng.choice(alnum) for _ in range(14)))[:rng.choice([13, 14])]
+        elif m == 4: b = a.swapcase()
+        elif m == 5:
+            k = rng.randrange(len(a)); b = a[:k] + a[k:k + 1].swapcase() + a[k + 1:]
+        elif m == 6:
+            k = rng.randrange(len(a)); b = a[:k] + bytes([rng.choice(alnum)]) + a[k + 1:]
+        elif m == 7: b = a + rng.choice([b".", b" ", b"-", b"\xa1"])
+        elif m == 8: b = a + b"\0" + bytes([rng.choice(alnum)])                    # same C string, junk after the NUL
+        elif m == 9: b = a[:rng.randrange(0, len(a))] + b"\0" + a                  # cut by a NUL
+        elif m == 10: b = a[1:]
+        else: b = bytes(rng.choice(alnum) for _ in range(rng.randrange(0, 13)))
+        o, u = (a, b) if rng.random() < 0.5 else (b, a)
+        o, u = o[:14], u[:13]
+        ts = rng.choice([1607202239, rng.randrange(0, 2 ** 31), rng.randrange(0, 10 ** 10)])
+        fn = b"M.%010d.A.%03X" % (ts, rng.randrange(4096))
+        if rng.random() < 0.05:
+            fn = fn[:rng.randrange(0, 14)]
+        tsw = ts & 0xFFFFFFFF
+        tsw = tsw - (1 << 32) if tsw >= 1 << 31 else tsw
+        fl = rng.choice([1000, tsw - 1, tsw, tsw + 1, rng.randrange(-2 ** 31, 2 ** 31)])
+        ls.append((o, u, fn, min(max(fl, -2 ** 31), 2 ** 31 - 1)))
+    return ls
+
+
+def bts(b):
+    return " ".join(map(str, bytes(b)))
 
 
 def main():
@@ -130,17 +308,43 @@ def main():
         return [o for ch in outs for o in ch]
 
     # ---------------------------------------------------------------- the table
-    rows, tags = [], []
+    rows, tags, rops = [], [], []
 
-    def add(r, tag):
+    def add(r, tag, ops=(1, 2, 3, 4, 5)):
         rows.append(r)
         tags.append(tag)
+        rops.append(ops)
 
     add(dict(BASE), ("base",))
     for i, (n1, f1) in enumerate(DEV):                                  # every single and every pair of deviations
         r = dict(BASE); f1(r); add(r, (n1,))
         for (n2, f2) in DEV[i + 1:]:
             r = dict(BASE); f1(r); f2(r); add(r, (n1, n2))
+    # limits over their whole byte range, around every threshold (and every threshold a product kept in a byte would fake),
+    # for an ordinary user, a moderator and a sysop; on the target board and on the BRD_CPLOG source of a cross-post
+    LB = [0, 1, 2, 25, 26, 27, 51, 52, 100, 127, 128, 129, 200, 254, 255]
+    who = [("user", lambda r: None), ("moderator", lambda r: r.update(inbm=1)), ("sysop", lambda r: r.update(ulevel=r["ulevel"] | P["SYSOP"]))]
+    for L in LB:
+        wv = (10 * L) % 256
+        for days in sorted({0, 10 * L - 1, 10 * L, 10 * L + 1, wv - 1, wv, 2549, 2550, 100000}):
+            if days < 0:
+                continue
+            for wn, wf in who:
+                r = dict(BASE, logindays=days, limlogins=L); wf(r); add(r, ("limit-logins", L, days, wn))
+            r = dict(BASE, logindays=days, slimlogins=L, sattr=B["CPLOG"]); add(r, ("src-limit-logins", L, days))
+    for L in [0, 1, 25, 26, 100, 127, 128, 254, 255]:
+        for bad in sorted({0, 254 - L, 255 - L, 256 - L, L, 255}):
+            if not 0 <= bad <= 255:
+                continue
+            for wn, wf in who:
+                r = dict(BASE, badpost=bad, limbad=L); wf(r); add(r, ("limit-badposts", L, bad, wn))
+            r = dict(BASE, badpost=bad, slimbad=L, sattr=B["CPLOG"]); add(r, ("src-limit-badposts", L, bad))
+    # a cross-post out of a BRD_CPLOG board: every pair of further deviations (the refusal can originate from either board)
+    cplog = dict(DEV)["src-cplog"]
+    others = [d for d in DEV if d[0] != "src-cplog"]
+    for i, (n1, f1) in enumerate(others):
+        for (n2, f2) in others[i + 1:]:
+            r = dict(BASE); cplog(r); f1(r); f2(r); add(r, ("src-cplog", n1, n2), ops=(4,))
     n_struct = len(rows)
     for _ in range(250000 if thorough else 25000):                        # random combinations, biased towards few deviations
         r = dict(BASE)
@@ -151,8 +355,8 @@ def main():
         add(r, tuple(sorted(names)))
 
     lines, meta = [], []
-    for r, t in zip(rows, tags):
-        for op in (1, 2, 3, 4, 5):
+    for r, t, ops in zip(rows, tags, rops):
+        for op in ops:
             lines.append(line(op, r)); meta.append((op, r, t))
     out = run_impl_par(lines)
     c.count(len(lines), "rows x (4 operations + rule pieces)")
@@ -164,11 +368,45 @@ def main():
         o6 = vf.run_model(model, l6)
         for r, l, o in zip(rows, l6, o6):
             f = facts(r)
-            want = "0 %d %d %d %d %d %d" % (f["may_write"], f["readable"], f["posting_rules"], f["limits_ok"], f["verified"], f["cooldown"])
+            want = "0 %d %d %d %d %d %d %d %d %d" % (f["may_write"], f["readable"], f["posting_rules"], f["limits_ok"], f["verified"], f["cooldown"],
+                                                 f["src_readable"], f["src_rules"], f["src_limits_ok"])
             if o.strip() != want:
                 c.broken.append({"kind": "correspondence", "where": "specification", "theorem": "may_write (Coq) vs reference (check)",
                                  "examples": [{"case": l, "model": o, "check": want}], "log": ""})
                 break
+
+    # ---------------------------------------------------------------- getRestrictionReason and isFileOwner on their own
+    rl = reason_lines(rng, thorough)
+    ol = owner_lines(rng, thorough)
+    l7 = ["7|%d %d %d %d" % t for t in rl]
+    l8 = ["8|%s|%s|%s|%d" % (bts(o_), bts(u_), bts(fn_), fl_) for (o_, u_, fn_, fl_) in ol]
+    o78 = vf.run_impl(impl, "C08", l7 + l8, deadline_ms=20000)
+    c.count(len(l7), "getRestrictionReason: 256 login-days limits x boundary days, 256 x 256 bad-post limit x count, random")
+    c.count(len(l8), "isFileOwner: id pairs related by prefix / case / trailing bytes / NUL, file-name and first-login boundaries")
+    if model:
+        m78 = vf.run_model(model, l7 + l8)
+        vf.correspond(c, "getRestrictionReason / isFileOwner", l7 + l8, o78, m78)
+    for t, l, o in zip(rl, l7, o78[:len(l7)]):
+        want = "0 %d" % reason_ref(*t)
+        c.nontrivial((7, o, t[2] >= 26, t[3] == 0))
+        if o.strip() != want:
+            days, bad, liml, limb = t
+            key = "restriction-reason:%s-expected%s" % (REASON[reason_ref(*t)], "-limit-over-25-units" if liml >= 26 else "")
+            c.violation(key, "getRestrictionReason(login-days %d, bad posts %d, limit %d x 10 days, bad-post limit %d) = %s, the rule says %s" % (
+                days, bad, liml, limb, REASON.get(int(o.split()[1]), o) if o.split()[:1] == ["0"] and len(o.split()) > 1 else o, REASON[reason_ref(*t)]),
+                {"cases": [l], "expected": want, "got": o})
+    for t, l, o in zip(ol, l8, o78[len(l7):]):
+        o_, u_, fn_, fl_ = t
+        same = cstr(o_, 14) == cstr(u_, 13)
+        c.nontrivial((8, o, same, cstr(o_, 14).startswith(cstr(u_, 13)), cstr(u_, 13).startswith(cstr(o_, 14)), cstr(o_, 14).lower() == cstr(u_, 13).lower()))
+        if o.strip() == "0 1" and not same:
+            rel = "a proper prefix of" if cstr(o_, 14).startswith(cstr(u_, 13)) else "an extension of" if cstr(u_, 13).startswith(cstr(o_, 14)) else \
+                  "equal up to case to" if cstr(o_, 14).lower() == cstr(u_, 13).lower() else "different from"
+            c.violation("owner-not-exact-id:" + rel.split()[-2], "isFileOwner: user %r passes as the author of an article owned by %r (the user's id is %s the owner's)" % (
+                cstr(u_, 13), cstr(o_, 14), rel), {"cases": [l], "expected": "0 0", "got": o})
+        elif o.strip() != "0 %d" % owner_ref(*t):
+            c.violation("isFileOwner-reference", "isFileOwner(owner %r, user %r, file %r, first login %d) = %s, reference says %d" % (o_, u_, fn_, fl_, o, owner_ref(*t)),
+                        {"cases": [l], "expected": "0 %d" % owner_ref(*t), "got": o})
 
     stats = {}
     for k_line, ((op, r, t), l, o) in enumerate(zip(meta, lines, out)):
@@ -195,7 +433,8 @@ def main():
         if code == 19:
             c.violation("other-error:" + name, "%s failed with an error outside the rule set on %s" % (name, l), dict({"cases": [l], "got": o}, **exp))
         if not accepted and trace:
-            c.violation("refusal-trace:" + name, "%s refused (%d) but .DIR / the directory / the author's record changed; %s" % (name, code, l), dict({"cases": [l], "got": o}, **exp))
+            c.violation("refusal-trace:" + name, "%s refused (%d) but an index / a board directory (target, source, log boards: any board of the BBS) / "
+                        "the author's record changed; %s" % (name, code, l), dict({"cases": [l], "got": o}, **exp))
         if accepted and not f["may_write"]:
             # which conjunct of the rule set was skipped
             if not f["readable"]:
@@ -211,26 +450,42 @@ def main():
             c.violation(key, "%s accepted a write the rule set refuses (readable=%s rules=%s limits=%s verified=%s cooldown=%s); row %s" % (
                 name, f["readable"], f["posting_rules"], f["limits_ok"], f["verified"], f["cooldown"], l), dict({"cases": [l], "got": o}, **exp))
         if accepted and op == 3 and not (f["owner"] or f["sysop"]):
-            c.violation("edit-not-owner", "EditPost accepted an edit by someone who is neither the author nor a sysop; %s" % l, dict({"cases": [l], "got": o}, **exp))
+            c.violation("edit-not-owner", "EditPost accepted an edit by someone who is neither the author nor a sysop (owner field %r, editor %r); %s" % (
+                owner_bytes(r), CALLER, l), dict({"cases": [l], "got": o}, **exp))
+        if accepted and op == 4 and not f["src_readable"]:
+            c.violation("crosspost-source-unreadable", "CrossPost accepted out of a board the user may not read; %s" % l, dict({"cases": [l], "got": o}, **exp))
+        if accepted and op == 4 and f["src_cplog"] and not (f["src_rules"] and f["src_limits_ok"]):
+            c.violation("crosspost-source-rules", "CrossPost out of a BRD_CPLOG board wrote the forward line into the source article although the source board's "
+                        "rules refuse the user (rules=%s limits=%s); %s" % (f["src_rules"], f["src_limits_ok"], l), dict({"cases": [l], "got": o}, **exp))
         if not accepted and f["may_write"]:
             ba = r["battr"]
             pre = {1: True,
                    2: r["exists"] and not ba & B["NORECOMMEND"],
                    3: r["exists"] and not ba & B["VOTEBOARD"] and f["basic"] and (f["owner"] or f["sysop"]),
-                   4: r["exists"] and not r["ulevel"] & P["VIOLATELAW"]}[op]
+                   4: r["exists"] and not r["ulevel"] & P["VIOLATELAW"] and f["src_readable"] and not f["src_voteboard"] and
+                      (not f["src_cplog"] or (f["src_rules"] and f["src_limits_ok"]))}[op]
             if pre:
                 c.violation("spurious-refusal:" + name, "%s refused (%d) a write the rule set allows; %s" % (name, code, l), dict({"cases": [l], "got": o}, **exp))
     c.cov["distribution"].update({"%s %s" % k: v for k, v in sorted(stats.items())})
-    c.sample({"row": lines[0], "impl": out[0], "legend": "status code(0=accepted) d.DIR d.files d.NumPosts refusal-trace"})
+    c.sample({"row": lines[0], "impl": out[0], "legend": "status code(0=accepted) d.DIR d.files d.NumPosts refusal-trace(any board directory / index / the author's record)"})
+    k7 = next((k for k, t in enumerate(rl) if t[2] == 30 and t[0] == 44), 0)
+    c.sample({"row": l7[k7], "impl": o78[k7], "legend": "getRestrictionReason(days badposts limit-logins limit-badposts): 0 none, 3 login-days, 4 bad-posts"})
+    k8 = next((k for k, t in enumerate(ol) if t[0] == b"A10" and t[1] == b"A1"), 0)
+    c.sample({"row": l8[k8], "impl": o78[len(l7) + k8], "legend": "isFileOwner(owner bytes | user id bytes | file name | first login)"})
     for k, l in enumerate(lines):
         if out[k].split()[1:2] not in (["0"], []) and meta[k][0] in OPS and len(c.cov["samples"]) < 6:
             c.sample({"row": l, "impl": out[k], "facts": {a: int(b) for a, b in facts(meta[k][1]).items()}})
     c.cov["exhaustive_parts"] = ["the all-rules-pass row, all %d single deviations and all %d pairs of deviations from it, each through the four operations and the rule pieces" % (
-        len(DEV), len(DEV) * (len(DEV) - 1) // 2)]
+        len(DEV), len(DEV) * (len(DEV) - 1) // 2),
+        "getRestrictionReason: all 256 login-days limits x the days around 10 x limit and around (10 x limit) mod 256; all 256 x 256 (bad-post limit, bad-post count) pairs",
+        "isFileOwner: all ordered pairs of 32 ids related by prefix / case / trailing character / embedded NUL"]
     c.cov["structured_rows"] = n_struct
     c.finish(rule="baseline + all single and pair deviations (%d named deviations: permission bits, moderator, friend, ban active/expired, board kind, attributes, levels, "
-                  "limits at and around their thresholds, cool-down states, ownership) + PRNG(seed) combinations of 3-8 deviations; each row x NewPost, Recommend, EditPost, "
-                  "CrossPost, rule pieces; a case is non-trivial per distinct (operation, outcome code, deviation set)" % len(DEV),
+                  "limits at and around their thresholds incl. limits of 26..255 units, cool-down states, owner field = caller's id / longer / shorter / other case / "
+                  "trailing characters / NUL+junk / unrelated, cross-post source board with BRD_CPLOG / ban / limits / level / hidden / restricted / vote) + a grid of both "
+                  "limits over their byte range x user / moderator / sysop (target and source board) + PRNG(seed) combinations of 3-8 deviations; each row x NewPost, "
+                  "Recommend, EditPost, CrossPost, rule pieces, with snapshots of every board directory and index; getRestrictionReason and isFileOwner swept on their own; "
+                  "a case is non-trivial per distinct (operation, outcome code, deviation set)" % len(DEV),
              assumptions=["build-time switches at their defaults (USE_COOLDOWN, REJECT_FLOOD_POST, USE_NEW_BAN_SYSTEM, USE_SYSOP_EDIT, SAFE_ARTICLE_DELETE = true)",
                           "clock: cool-down and ban expiry are planted 600 s / 1000 s away from the clock the code reads, so no second boundary is crossed",
                           "the cool-down word in shared memory is outside the no-trace frame (checkCooldown normalises an expired word before later guards run)",
